@@ -1,6 +1,7 @@
 import Csproto.Props.C02
 import Csproto.Bridge.Facts
 import Csproto.Bridge.WireFuncs
+import Csproto.Bridge.WireFuncs2
 /- axiom audit for C02 -/
 open Csproto
 #print axioms canon_encVarint
@@ -27,3 +28,11 @@ open Csproto
 #print axioms Csproto.Bridge.WireFuncs.DecodeFixed64_ok
 #print axioms Csproto.Bridge.WireFuncs.DecodeFixed64_short
 #print axioms Csproto.Bridge.WireFuncs.translated_varint_roundtrip
+
+-- second batch of TRANSLATED primitives (functions that call other translated functions): Bridge/WireFuncs2.lean
+#print axioms Csproto.Bridge.WireFuncs.EncodeTag_ok
+#print axioms Csproto.Bridge.WireFuncs.EncodeZigZag32_ok
+#print axioms Csproto.Bridge.WireFuncs.EncodeZigZag64_ok
+#print axioms Csproto.Bridge.WireFuncs.DecodeZigZag32_eq
+#print axioms Csproto.Bridge.WireFuncs.DecodeZigZag64_eq
+#print axioms Csproto.Bridge.WireFuncs.key_toNat
